@@ -514,7 +514,7 @@ Qed.
 Lemma add_slaves_accepts : forall doc done i,
   forallb slave_entry_ok doc = true -> endpoints_distinct doc = true ->
   (forall e e', In e doc -> In e' done -> same_endpoint e e' = false) ->
-  exists devs, add_slaves (map slave_json done) doc i = (devs, None).
+  exists devs, add_slaves (map slave_json done) doc i None = (devs, None).
 Proof.
   induction doc as [|e r IH]; intros done i OK D H; [eexists; reflexivity|].
   cbn [add_slaves]. cbn [forallb endpoints_distinct] in OK, D.
@@ -585,10 +585,15 @@ Theorem peripherals_backup_accepted : forall known auto st dyn ps2,
   (forall e, In e st -> is_static e = true) ->
   (forall e, In e dyn -> driver_known known e = true /\ peripheral_json auto e = e) ->
   ids_distinct (st ++ dyn) = true ->
+  forallb (fun e => is_none (invalid_peripheral e)) (st ++ dyn) = true ->
   filter is_static ps2 = st ->
   exists ps2', put_peripherals known auto (get_peripherals (st ++ dyn)) ps2 = (ps2', None).
 Proof.
-  intros known auto st dyn ps2 ST DY D F. unfold put_peripherals, get_peripherals. rewrite F.
+  intros known auto st dyn ps2 ST DY D V F. unfold put_peripherals, get_peripherals.
+  assert (FS : forall l, forallb (fun e => is_none (invalid_peripheral e)) l = true -> first_some invalid_peripheral l = None).
+  { induction l as [|e l IH]; cbn; [reflexivity|]. intros H. apply andb_prop in H. destruct H as [H1 H2].
+    destruct (invalid_peripheral e); [discriminate|auto]. }
+  rewrite (FS _ V), F.
   apply add_peripherals_accepts; auto.
   - intros e I NS. apply in_app_or in I. destruct I as [I|I]; [rewrite (ST e I) in NS; discriminate|auto].
   - (* an entry of the document against an earlier static one: the document lists the static ones first *)
@@ -603,11 +608,12 @@ Theorem peripherals_roundtrip_total : forall known auto st dyn ps2,
   (forall e, In e dyn -> is_static e = false /\ peripheral_json auto e = e) ->
   (forall e, In e dyn -> driver_known known e = true) ->
   ids_distinct (st ++ dyn) = true ->
+  forallb (fun e => is_none (invalid_peripheral e)) (st ++ dyn) = true ->
   filter is_static ps2 = st ->
   exists ps2', put_peripherals known auto (get_peripherals (st ++ dyn)) ps2 = (ps2', None)
                /\ get_peripherals ps2' = get_peripherals (st ++ dyn).
 Proof.
-  intros known auto st dyn ps2 ST DY DK D F.
+  intros known auto st dyn ps2 ST DY DK D V F.
   destruct (peripherals_backup_accepted known auto st dyn ps2 ST) as [ps2' P]; auto.
   { intros e I. split; [auto|]. now destruct (DY e I). }
   exists ps2'. split; [exact P|]. exact (peripherals_roundtrip known auto st dyn ps2 ps2' ST DY F P).
